@@ -48,6 +48,8 @@ Conforms(e) ==
          /\ e.out.root2 = e.out.root /\ e.out.intact                       \* hashing twice gives the same root, leaves untouched
     [] e.op = "merkle.Big" ->       \* large leaf counts against the bottom-up construction (MerkleMC: equal to MTH)
          /\ e.out.panic = "" /\ e.out.ok /\ e.out.root = e.out.bottomup /\ Len(e.out.root) = e.out.size /\ e.out.intact
+    [] e.op = "merkle.BigErr" ->    \* large trees with several failing leaves: the first marshaling error in leaf order, no hash
+         /\ e.out.panic = "" /\ ~e.out.ok /\ e.out.root = <<>> /\ e.out.err = MinOf(RangeOf(e.in.fail))
     [] e.op = "merkle.Par" -> e.out.panic = "" /\ e.out.ok            \* separately created Hashers used at the same time answer as alone (compared in the driver)
     [] e.op = "merkle.Empty" -> e.out.panic = "" /\ e.out.ok           \* H() for no leaves, whatever earlier callers did with their copies
     [] e.op = "merkle.lp2" ->
